@@ -2157,7 +2157,8 @@ pub fn run(args: &Args) -> Report {
     rep.set("handlers_released_by_first_disconnect_hook_and_cancelled", json!(t.hook_released_cancelled));
     rep.set("parked_handlers_woken_through_the_cancelled_future_polled_before_the_cancel", json!(t.future_woken));
     rep.set("cancelled_future_wake_slowest_ms", json!(t.future_slowest_ms));
-    rep.set("late_alias_calls_for_a_departed_peer_under_a_live_peers_key", json!({"attempts": t.late_alias_attempts, "accepted": t.late_alias_accepted}));
+    rep.set("late_alias_calls_for_a_departed_peer_under_a_live_peers_key", json!(t.late_alias_attempts));
+    rep.set("late_alias_calls_for_a_departed_peer_accepted", json!(t.late_alias_accepted));
     rep.set("handlers_released_from_hook_gate_by_driver_teardown", json!(t.hook_release_by_driver));
     t.tk.report(&mut rep);
     rep.set("bystander_liveness_checks", json!(t.bystanders_alive));
